@@ -129,32 +129,46 @@ Section Proofs.
       exists cur'. rewrite E. rewrite <- app_assoc. split; [reflexivity|exact K].
   Qed.
 
+  (** [finally: update_parameters(in_force)] puts back exactly what was found *)
+  Lemma put_back_same cur cur' :
+    NoDup (map fst cur) -> map fst cur' = map fst cur -> put_back FX cur cur' = cur.
+  Proof.
+    intros Hnd Hk. unfold put_back. change (rf_view FX) with VKRestores. cbn match.
+    rewrite (apply_params_same cur cur' Hnd Hk). reflexivity.
+  Qed.
+
+  (** the lazy table is filled with the canonical tables and the model's parameters are what they were *)
   Lemma compute_args_good m r pn tbs st :
     wf_res r pn -> canon_tables fsem m r = Ok tbs -> good_state pn tbs st ->
-    exists cur', compute_args fsem FX m r st = (Ok tbs, mkSt cur' tbs) /\ map fst cur' = pn.
+    compute_args fsem FX m r st = (Ok tbs, mkSt (s_cur st) tbs).
   Proof.
     intros [Hnd [Hlen [Hne Hall]]] Hc [Hk Hraw]. destruct st as [cur raw]. cbn [s_cur s_raw] in *.
-    unfold compute_args. change (rf_fill_guard FX) with true. cbn [s_raw andb].
-    assert (Hfill : exists cur', fill fsem FX m (r_segs r) (r_pars r) (mkSt cur []) = (Ok tbs, mkSt cur' tbs) /\ map fst cur' = pn).
+    unfold compute_args. change (rf_view FX) with VKRestores. cbn match.
+    change (rf_fill_guard FX) with true. cbn [s_raw s_cur andb].
+    assert (Hfill : (let '(ra, st1) := fill fsem FX m (r_segs r) (r_pars r) (mkSt cur []) in
+                     (ra, mkSt (put_back FX cur (s_cur st1)) (s_raw st1))) = (Ok tbs, mkSt cur tbs)).
     { destruct (fill_canon m pn (r_segs r) (r_pars r) cur [] tbs Hnd Hall Hk Hc Hlen) as [cur' [E K]].
-      exists cur'. split; [exact E|exact K]. }
+      rewrite E. cbn [s_cur s_raw app].
+      rewrite put_back_same; [reflexivity|rewrite Hk; exact Hnd|rewrite K, Hk; reflexivity]. }
     destruct Hraw as [-> | ->].
     - cbn [nonempty]. exact Hfill.
     - destruct tbs as [|tb tbs]; cbn [nonempty].
       + exact Hfill.
-      + exists cur. split; [reflexivity|exact Hk].
+      + reflexivity.
   Qed.
 
   Lemma view_selected_spec m r pn tbs st f n conc :
     wf_res r pn -> evaluable fsem m pn -> canon_tables fsem m r = Ok tbs -> good_state pn tbs st ->
     fst (view_selected fsem FX m r f n conc st) = spec_selected pk fsem m r pn f n conc
-    /\ good_state pn tbs (snd (view_selected fsem FX m r f n conc st)).
+    /\ good_state pn tbs (snd (view_selected fsem FX m r f n conc st))
+    /\ s_cur (snd (view_selected fsem FX m r f n conc st)) = s_cur st.
   Proof.
     intros Hwf Hev Hc Hg. unfold view_selected, spec_selected.
-    destruct (compute_args_good m r pn tbs st Hwf Hc Hg) as [cur' [E K]]. rewrite E, Hc.
-    cbn [s_cur]. rewrite (names_of_keys m pn cur' f Hev K).
-    assert (G : good_state pn tbs (mkSt cur' tbs)) by (split; [exact K|right; reflexivity]).
-    destruct (map_res (select_cols lookups (view_names m pn f)) tbs); cbn [fst snd]; split; auto.
+    rewrite (compute_args_good m r pn tbs st Hwf Hc Hg), Hc.
+    cbn [s_cur]. destruct Hg as [Hk _]. rewrite (names_of_keys m pn (s_cur st) f Hev Hk).
+    assert (G : good_state pn tbs (mkSt (s_cur st) tbs)) by (split; [exact Hk|right; reflexivity]).
+    destruct (map_res (select_cols lookups (view_names m pn f)) tbs); cbn [fst snd s_cur];
+      (split; [reflexivity|split; [exact G|reflexivity]]).
   Qed.
 
   Lemma rhs_loop_spec m pn : forall tbs ps cur,
@@ -176,14 +190,18 @@ Section Proofs.
   Lemma view_rhs_spec m r pn tbs st n conc :
     wf_res r pn -> canon_tables fsem m r = Ok tbs -> good_state pn tbs st ->
     fst (view_rhs fsem FX m r n conc st) = spec_rhs pk fsem m r n conc
-    /\ good_state pn tbs (snd (view_rhs fsem FX m r n conc st)).
+    /\ good_state pn tbs (snd (view_rhs fsem FX m r n conc st))
+    /\ s_cur (snd (view_rhs fsem FX m r n conc st)) = s_cur st.
   Proof.
     intros Hwf Hc Hg. unfold view_rhs, spec_rhs.
-    destruct (compute_args_good m r pn tbs st Hwf Hc Hg) as [cur' [E K]]. rewrite E, Hc.
-    destruct Hwf as [Hnd [Hlen [Hne Hall]]]. cbn [s_cur s_raw].
-    destruct (rhs_loop_spec m pn tbs (r_pars r) cur' Hnd Hall K) as [c2 [E2 K2]]. rewrite E2.
-    assert (G : good_state pn tbs (mkSt c2 tbs)) by (split; [exact K2|right; reflexivity]).
-    destruct (spec_rhs_list fsem m tbs (r_pars r)); cbn [fst snd]; split; auto.
+    rewrite (compute_args_good m r pn tbs st Hwf Hc Hg), Hc.
+    destruct Hwf as [Hnd [Hlen [Hne Hall]]]. destruct Hg as [Hk _]. cbn [s_cur s_raw].
+    destruct (rhs_loop_spec m pn tbs (r_pars r) (s_cur st) Hnd Hall Hk) as [c2 [E2 K2]]. rewrite E2.
+    assert (G : good_state pn tbs (mkSt (s_cur st) tbs)) by (split; [exact Hk|right; reflexivity]).
+    assert (P : put_back FX (s_cur st) c2 = s_cur st)
+      by (apply put_back_same; [rewrite Hk; exact Hnd|rewrite K2, Hk; reflexivity]).
+    destruct (spec_rhs_list fsem m tbs (r_pars r)); cbn [fst snd s_cur]; rewrite P;
+      (split; [reflexivity|split; [exact G|reflexivity]]).
   Qed.
 
   Lemma scale_loop_spec m v neg names pn : forall fs ps cur,
@@ -225,7 +243,7 @@ Section Proofs.
     assert (G0 : good_state pn tbs (mkSt p0 (s_raw st))) by (split; [exact Hp0|exact Hraw]).
     destruct (stoich_of_variable fsem m p0 v) as [sto|e]; [|cbn [fst snd]; split; auto].
     fold (signed_names neg sto).
-    destruct (view_selected_spec m r pn tbs (mkSt p0 (s_raw st)) (flags_fluxes true) n false Hwf Hev Hc G0) as [E1 G1].
+    destruct (view_selected_spec m r pn tbs (mkSt p0 (s_raw st)) (flags_fluxes true) n false Hwf Hev Hc G0) as [E1 [G1 _]].
     destruct (view_selected fsem FX m r (flags_fluxes true) n false (mkSt p0 (s_raw st))) as [o st1].
     cbn [fst snd] in E1, G1. rewrite E1.
     destruct (spec_selected pk fsem m r pn (flags_fluxes true) n false) as [f0|fl|?|?|d0| |e0|]; cbn [fst snd]; try (split; auto; fail).
@@ -244,29 +262,30 @@ Section Proofs.
       destruct conc; [destruct (concat0 fl1)|]; cbn [fst snd]; split; auto.
   Qed.
 
-  (** the repaired bodies: the view is the property's rule, from every reachable state *)
+  (** the repaired bodies: the view is the property's rule, from every reachable state, and the model's
+      parameters are left as they were found *)
   Lemma view_prodcons_rows_spec m r pn tbs st neg v scaled n conc :
     wf_res r pn -> evaluable fsem m pn -> canon_tables fsem m r = Ok tbs -> good_state pn tbs st ->
     fst (view_prodcons_rows fsem FX m r neg v scaled n conc st) = spec_prodcons_rows pk fsem m r pn neg v scaled n conc
-    /\ good_state pn tbs (snd (view_prodcons_rows fsem FX m r neg v scaled n conc st)).
+    /\ good_state pn tbs (snd (view_prodcons_rows fsem FX m r neg v scaled n conc st))
+    /\ s_cur (snd (view_prodcons_rows fsem FX m r neg v scaled n conc st)) = s_cur st.
   Proof.
-    intros Hwf Hev Hc Hg. pose proof Hwf as [Hnd [Hlen [Hne Hall]]].
-    pose proof (Forall_last _ _ [] Hall Hne) as Hlast. cbn beta in Hlast.
+    intros Hwf Hev Hc Hg.
     unfold view_prodcons_rows, spec_prodcons_rows.
-    destruct (factors_of m v) as [|f0 fs0] eqn:Ef; [cbn [fst snd]; split; auto|].
-    destruct (compute_args_good m r pn tbs st Hwf Hc Hg) as [cur' [E K]]. rewrite E, Hc.
-    destruct (map_res (coef_rows fsem neg (f0 :: fs0)) tbs) as [coefs|e]; [|cbn [fst snd]; split; [reflexivity|split; [exact K|right; reflexivity]]].
-    assert (G1 : good_state pn tbs (mkSt cur' tbs)) by (split; [exact K|right; reflexivity]).
-    destruct (view_selected_spec m r pn tbs (mkSt cur' tbs) (flags_fluxes true) n false Hwf Hev Hc G1) as [E1 G2].
-    destruct (view_selected fsem FX m r (flags_fluxes true) n false (mkSt cur' tbs)) as [o st2].
-    cbn [fst snd] in E1, G2. rewrite E1.
-    destruct (spec_selected pk fsem m r pn (flags_fluxes true) n false) as [fa|fl|?|?|?| |e0|]; cbn [fst snd]; try (split; auto; fail).
-    destruct (mask_all scaled (kept (f0 :: fs0) coefs) fl coefs) as [ml|e1]; [|cbn [fst snd]; split; auto].
-    destruct (r_pars r) as [|p0 ps] eqn:Ep; [contradiction|].
-    destruct G2 as [K2 R2]. pose proof Hnd as HndL. rewrite <- Hlast in HndL.
-    rewrite (apply_params_same (last (p0 :: ps) []) (s_cur st2)); [|exact HndL|exact (eq_trans K2 (eq_sym Hlast))].
-    cbn [negb]. assert (G3 : good_state pn tbs (mkSt (last (p0 :: ps) []) (s_raw st2))) by (split; [exact Hlast|exact R2]).
-    destruct conc; [destruct (mconcat0 ml)|]; cbn [fst snd]; split; auto.
+    destruct (factors_of m v) as [|f0 fs0] eqn:Ef; [cbn [fst snd]; split; [reflexivity|split; [exact Hg|reflexivity]]|].
+    rewrite (compute_args_good m r pn tbs st Hwf Hc Hg), Hc.
+    assert (G1 : good_state pn tbs (mkSt (s_cur st) tbs)) by (destruct Hg as [Hk _]; split; [exact Hk|right; reflexivity]).
+    destruct (map_res (coef_rows fsem neg (f0 :: fs0)) tbs) as [coefs|e];
+      [|cbn [fst snd s_cur]; split; [reflexivity|split; [exact G1|reflexivity]]].
+    destruct (view_selected_spec m r pn tbs (mkSt (s_cur st) tbs) (flags_fluxes true) n false Hwf Hev Hc G1) as [E1 [G2 K2]].
+    destruct (view_selected fsem FX m r (flags_fluxes true) n false (mkSt (s_cur st) tbs)) as [o st2].
+    cbn [fst snd s_cur] in E1, G2, K2. rewrite E1.
+    destruct (spec_selected pk fsem m r pn (flags_fluxes true) n false) as [fa|fl|?|?|?| |e0|]; cbn [fst snd];
+      try (split; [reflexivity|split; [exact G2|exact K2]]; fail).
+    destruct (mask_all scaled (kept (f0 :: fs0) coefs) fl coefs) as [ml|e1];
+      [|cbn [fst snd]; split; [reflexivity|split; [exact G2|exact K2]]].
+    unfold prodcons_tail. change (rf_view FX) with VKRestores. cbn match.
+    destruct conc; [destruct (mconcat0 ml)|]; cbn [fst snd]; (split; [reflexivity|split; [exact G2|exact K2]]).
   Qed.
 
   Lemma view_prodcons_spec m r pn tbs st neg v scaled n conc :
@@ -293,7 +312,7 @@ Section Proofs.
                                  end))).
     { intros k. destruct k.
       - apply view_prodcons_first_spec; assumption.
-      - apply view_prodcons_rows_spec; assumption.
+      - destruct (view_prodcons_rows_spec m r pn tbs st neg v scaled n conc Hwf Hev Hc Hg) as [E [G _]]. split; assumption.
       - cbn [fst snd]. split; [reflexivity|exact Hg]. }
     exact (H pk).
   Qed.
@@ -301,10 +320,11 @@ Section Proofs.
   Lemma view_vars_spec m r pn tbs st dv ro sv conc n :
     wf_res r pn -> evaluable fsem m pn -> canon_tables fsem m r = Ok tbs -> good_state pn tbs st ->
     fst (view_vars fsem FX m r dv ro sv conc n st) = spec_vars pk fsem m r pn dv ro sv conc n
-    /\ good_state pn tbs (snd (view_vars fsem FX m r dv ro sv conc n st)).
+    /\ good_state pn tbs (snd (view_vars fsem FX m r dv ro sv conc n st))
+    /\ s_cur (snd (view_vars fsem FX m r dv ro sv conc n st)) = s_cur st.
   Proof.
     intros Hwf Hev Hc Hg. unfold view_vars, spec_vars.
-    destruct (negb (dv || ro || sv)); [cbn [fst snd]; split; auto|].
+    destruct (negb (dv || ro || sv)); [cbn [fst snd]; split; [reflexivity|split; [exact Hg|reflexivity]]|].
     apply view_selected_spec; assumption.
   Qed.
 
@@ -328,21 +348,21 @@ Section Proofs.
     /\ good_state pn tbs (snd (run_op fsem FX m r o st)).
   Proof.
     intros Hwf Hev Hc Hg. destruct o; cbn [run_op spec_op is_view].
-    - destruct (view_selected_spec m r pn tbs st f n conc Hwf Hev Hc Hg); split; auto.
-    - destruct (view_vars_spec m r pn tbs st dv ro sv conc n Hwf Hev Hc Hg); split; auto.
-    - destruct (view_selected_spec m r pn tbs st (flags_fluxes surr) n conc Hwf Hev Hc Hg); split; auto.
-    - destruct (view_vars_spec m r pn tbs st true true true true NNone Hwf Hev Hc Hg); split; auto.
-    - destruct (view_selected_spec m r pn tbs st (flags_fluxes true) NNone true Hwf Hev Hc Hg); split; auto.
-    - destruct (view_vars_spec m r pn tbs st true true true true NNone Hwf Hev Hc Hg) as [E1 G1].
+    - destruct (view_selected_spec m r pn tbs st f n conc Hwf Hev Hc Hg) as [E [G _]]; split; auto.
+    - destruct (view_vars_spec m r pn tbs st dv ro sv conc n Hwf Hev Hc Hg) as [E [G _]]; split; auto.
+    - destruct (view_selected_spec m r pn tbs st (flags_fluxes surr) n conc Hwf Hev Hc Hg) as [E [G _]]; split; auto.
+    - destruct (view_vars_spec m r pn tbs st true true true true NNone Hwf Hev Hc Hg) as [E [G _]]; split; auto.
+    - destruct (view_selected_spec m r pn tbs st (flags_fluxes true) NNone true Hwf Hev Hc Hg) as [E [G _]]; split; auto.
+    - destruct (view_vars_spec m r pn tbs st true true true true NNone Hwf Hev Hc Hg) as [E1 [G1 _]].
       destruct (view_vars fsem FX m r true true true true NNone st) as [a st1]. cbn [fst snd] in E1, G1. rewrite E1.
       destruct (spec_vars pk fsem m r pn true true true true NNone) as [fa|?|?|?|?| |?|]; cbn [fst snd]; try (split; auto; fail).
-      destruct (view_selected_spec m r pn tbs st1 (flags_fluxes true) NNone true Hwf Hev Hc G1) as [E2 G2].
+      destruct (view_selected_spec m r pn tbs st1 (flags_fluxes true) NNone true Hwf Hev Hc G1) as [E2 [G2 _]].
       destruct (view_selected fsem FX m r (flags_fluxes true) NNone true st1) as [b st2]. cbn [fst snd] in E2, G2. rewrite E2.
       destruct (spec_selected pk fsem m r pn (flags_fluxes true) NNone true); cbn [fst snd]; split; auto.
-    - destruct (view_rhs_spec m r pn tbs st n conc Hwf Hc Hg); split; auto.
+    - destruct (view_rhs_spec m r pn tbs st n conc Hwf Hc Hg) as [E [G _]]; split; auto.
     - destruct (view_prodcons_spec m r pn tbs st false v scaled n conc Hwf Hev Hc Hg); split; auto.
     - destruct (view_prodcons_spec m r pn tbs st true v scaled n conc Hwf Hev Hc Hg); split; auto.
-    - destruct (view_vars_spec m r pn tbs st false false false true NNone Hwf Hev Hc Hg) as [E1 G1].
+    - destruct (view_vars_spec m r pn tbs st false false false true NNone Hwf Hev Hc Hg) as [E1 [G1 _]].
       destruct (view_vars fsem FX m r false false false true NNone st) as [a st1]. cbn [fst snd] in E1, G1. rewrite E1.
       destruct (spec_vars pk fsem m r pn false false false true NNone) as [fa|?|?|?|?| |?|]; cbn [fst snd]; try (split; auto; fail).
       destruct (rev (f_rows fa)); cbn [fst snd]; split; auto.
@@ -608,3 +628,92 @@ Lemma mask_cell_spec scaled q c :
   (0 < c -> mask_cell scaled q c = Some (if scaled then (q * inject_Z c)%Q else q)) /\
   (c <= 0 -> mask_cell scaled q c = None).
 Proof. unfold mask_cell. destruct (Z.ltb_spec 0 c); split; intro; try reflexivity; lia. Qed.
+
+(** * reading a result never changes the parameter values of the shared model (since /repo 4167248)
+
+    For the bodies the tree has ([expected_facts PKRows]): every read leaves [s_cur] exactly as found; only the
+    user's own [model.update_parameter] changes it.  Hence, at any position of any sequence of reads and user
+    edits, [model.get_parameter_values()] shows what the user last set. *)
+Section Keeps.
+  Variable fsem : fnid -> list Z -> Z.
+  Notation FXR := (expected_facts PKRows).
+
+  Lemma run_op_keeps m r pn tbs o st :
+    wf_res r pn -> evaluable fsem m pn -> canon_tables fsem m r = Ok tbs -> good_state pn tbs st ->
+    s_cur (snd (run_op fsem FXR m r o st)) = user_edit o (s_cur st).
+  Proof.
+    intros Hwf Hev Hc Hg.
+    assert (PC : forall neg v scaled n conc,
+               s_cur (snd (view_prodcons fsem FXR m r neg v scaled n conc st)) = s_cur st).
+    { intros. unfold view_prodcons. change (rf_prod FXR) with PKRows. cbn match.
+      destruct (view_prodcons_rows_spec PKRows fsem m r pn tbs st neg v scaled n conc Hwf Hev Hc Hg) as [_ [_ K]]. exact K. }
+    destruct o; cbn [run_op user_edit].
+    - destruct (view_selected_spec PKRows fsem m r pn tbs st f n conc Hwf Hev Hc Hg) as [_ [_ K]]. exact K.
+    - destruct (view_vars_spec PKRows fsem m r pn tbs st dv ro sv conc n Hwf Hev Hc Hg) as [_ [_ K]]. exact K.
+    - destruct (view_selected_spec PKRows fsem m r pn tbs st (flags_fluxes surr) n conc Hwf Hev Hc Hg) as [_ [_ K]]. exact K.
+    - destruct (view_vars_spec PKRows fsem m r pn tbs st true true true true NNone Hwf Hev Hc Hg) as [_ [_ K]]. exact K.
+    - destruct (view_selected_spec PKRows fsem m r pn tbs st (flags_fluxes true) NNone true Hwf Hev Hc Hg) as [_ [_ K]]. exact K.
+    - destruct (view_vars_spec PKRows fsem m r pn tbs st true true true true NNone Hwf Hev Hc Hg) as [_ [G1 K1]].
+      destruct (view_vars fsem FXR m r true true true true NNone st) as [a st1]. cbn [fst snd] in G1, K1.
+      destruct a; cbn [fst snd]; try exact K1.
+      destruct (view_selected_spec PKRows fsem m r pn tbs st1 (flags_fluxes true) NNone true Hwf Hev Hc G1) as [_ [_ K2]].
+      destruct (view_selected fsem FXR m r (flags_fluxes true) NNone true st1) as [b st2]. cbn [fst snd] in K2.
+      destruct b; cbn [fst snd]; rewrite K2; exact K1.
+    - destruct (view_rhs_spec PKRows fsem m r pn tbs st n conc Hwf Hc Hg) as [_ [_ K]]. exact K.
+    - apply PC.
+    - apply PC.
+    - destruct (view_vars_spec PKRows fsem m r pn tbs st false false false true NNone Hwf Hev Hc Hg) as [_ [_ K1]].
+      destruct (view_vars fsem FXR m r false false false true NNone st) as [a st1]. cbn [fst snd] in K1.
+      destruct a; cbn [fst snd]; try exact K1.
+      destruct (rev (f_rows f)); cbn [fst snd]; exact K1.
+    - destruct (lookup k (s_cur st)); reflexivity.
+    - reflexivity.
+  Qed.
+
+  Lemma final_state_pars m r pn tbs :
+    wf_res r pn -> evaluable fsem m pn -> canon_tables fsem m r = Ok tbs ->
+    forall os st, good_state pn tbs st ->
+      s_cur (final_state fsem FXR m r os st) = user_edits os (s_cur st)
+      /\ good_state pn tbs (final_state fsem FXR m r os st).
+  Proof.
+    intros Hwf Hev Hc. induction os as [|o os IH]; intros st Hg; cbn [final_state user_edits].
+    - split; [reflexivity|exact Hg].
+    - destruct (run_op_spec PKRows fsem m r pn tbs o st Hwf Hev Hc Hg) as [_ G].
+      destruct (IH _ G) as [E G']. rewrite E. rewrite (run_op_keeps m r pn tbs o st Hwf Hev Hc Hg).
+      split; [reflexivity|exact G'].
+  Qed.
+
+  (** what [model.get_parameter_values()] shows at position [i] of any sequence: the user's edits so far *)
+  Lemma model_pars_in_sequences m r pn tbs :
+    wf_res r pn -> evaluable fsem m pn -> canon_tables fsem m r = Ok tbs ->
+    forall os st i, good_state pn tbs st -> nth_error os i = Some OModelPars ->
+      nth_error (run_ops fsem FXR m r os st) i = Some (pars_dict (user_edits (firstn i os) (s_cur st))).
+  Proof.
+    intros Hwf Hev Hc. induction os as [|o os IH]; intros st i Hg Hn.
+    - destruct i; discriminate.
+    - cbn [run_ops].
+      pose proof (run_op_keeps m r pn tbs o st Hwf Hev Hc Hg) as K.
+      destruct (run_op_spec PKRows fsem m r pn tbs o st Hwf Hev Hc Hg) as [_ G].
+      destruct (run_op fsem FXR m r o st) as [x st'] eqn:Er. cbn [fst snd] in K, G.
+      destruct i as [|i]; cbn [nth_error firstn user_edits] in *.
+      + injection Hn as ->. cbn [run_op] in Er. injection Er as <- _. reflexivity.
+      + rewrite (IH st' i G Hn). rewrite K. reflexivity.
+  Qed.
+End Keeps.
+
+(** * the concatenated frame has EVERY row of every segment, in order -- also when two segments report the same time *)
+Lemma length_concat_rows (l : list (frame Q)) :
+  length (concat (map f_rows l)) = list_sum (map (fun x => length (f_rows x)) l).
+Proof.
+  induction l as [|x l IH]; [reflexivity|].
+  cbn [map concat]. rewrite app_length, IH. reflexivity.
+Qed.
+
+Lemma concat0_rows data f :
+  concat0 data = Ok f ->
+  f_idx f = concat (map f_idx data) /\ f_rows f = concat (map f_rows data)
+  /\ length (f_rows f) = list_sum (map (fun x => length (f_rows x)) data).
+Proof.
+  unfold concat0. destruct data as [|f0 rest]; [discriminate|]. intro H. injection H as <-. cbn [f_idx f_rows].
+  split; [reflexivity|]. split; [reflexivity|]. exact (length_concat_rows (f0 :: rest)).
+Qed.
